@@ -139,6 +139,14 @@ class C02(Prop):
             if rng.random() < 0.5: q["max_travel_time"] = rng.choice([-1, 0, 300, 900, 1800, 3600])
             rs.append(("route", q))
         rs.append(("route", gen.gen_query(rng, d, alt=True)))
+        # alternatives with three DIFFERENT walking maxima, the transfer maximum below the footpaths of the data and the others above
+        # (a recalculation that mixes the maxima up lets a too long transfer walk through; added after seeded change C02-r4)
+        qa = gen.gen_query(rng, d, alt=True, limits=False)
+        walks = sorted(set(t for a_, b_, t, x in d["foot"] if a_ != b_ and t > 0))
+        qa["max_transfer_travel_time"] = max(1, (rng.choice(walks) - 1) if walks else 29)
+        qa["max_egress_travel_time"] = rng.choice([1500, 2000]); qa["max_access_travel_time"] = rng.choice([1400, 2500])
+        qa.pop("max_travel_time", None)
+        rs.append(("route", qa))
         return rs
 
     def direct(self, d, kind, q, a, ctx):
@@ -404,15 +412,16 @@ class C09(C08):
 class C10(Prop):
     pid = "C10"
     module = "TrVerif.Props.C10"
-    streams = [("parallel", 5), ("dense", 2), ("overlap", 1), ("tmpl", 1), ("xfer", 1), ("closer", 1)]
-    rule = ("pairs (query, same query with alternatives=true); parallel-lines stream so that many answers have >= 3 routes; "
+    streams = [("parallel", 5), ("dense", 2), ("overlap", 1), ("tmpl", 1), ("xfer", 1), ("closer", 1), ("manylines", 1)]
+    rule = ("pairs (query, same query with alternatives=true); parallel-lines stream so that many answers have >= 3 routes; manylines stream "
+            "(52-60 parallel single-trip lines) so that the cap of 50 returned routes is reached; "
             "non-trivial = answer with >= 2 routes; distinct (dataset, request)")
 
     def requests(self, rng, d):
         rs = []
         for _ in range(3):
             q = gen.gen_query(rng, d, cap=rng.choice([0, 0, None]))
-            if rng.random() < 0.5:      # limits below the 30 min floor of the alternatives' own window
+            if rng.random() < 0.5 and d.get("profile") != "manylines":      # limits below the 30 min floor of the alternatives' own window
                 q["max_travel_time"] = rng.choice([300, 450, 600, 750, 900, 1200, 1500, 1700])
             qa = dict(q); qa["alternatives"] = rng.choice(["1", "true"])
             rs.append(("route", q)); rs.append(("route", qa))
